@@ -36,6 +36,7 @@ TRUSTED = [
     "modelled, not verified: writeBinary/readBinary, GridGlobal/Sequence/LocalPolynomial/Wavelet/Fourier::write<binary> and GridReaderVersion5, "
     "MultiIndexSet/StorageSet/Data2D binary I/O, DynamicConstructorDataGlobal/SimpleConstructData binary I/O, CustomTabulated binary I/O; "
     "the model reader deviates from the C++ reader only on inputs the writer never produces (negative counts: size_t wrap-around / exceptions are modelled as 0 items)",
+    "sanitizers (ASan/UBSan build of the library and driver) for a subset of the cases",
     "NOT modelled: the ASCII format (token grammar, 17-digit printing, version line handling): tied only by the direct round-trip checks (a)-(e); "
     "read of older file versions; stream failure handling",
     "the theorems speak about bytes <-> serialised fields; that equal serialised fields mean equal observable behaviour (rebuilt caches: wrapper, "
@@ -616,7 +617,8 @@ def trigger_of(raw, default):
 
 def rerun_hang(g, cmd, stats):
     """a time-out is a hang only if the command still does not return with ten times the budget (case run alone)"""
-    drv, wd = stats["drv"], stats["wd"]
+    drv, wd = vlib.build_driver("iodrv", stats.get("variant", "plain")), stats["wd"]      # (re-resolved: the build cache may have been pruned meanwhile)
+    os.makedirs(wd, exist_ok=True)
     sp = os.path.join(wd, "hang_%s.txt" % g.cid)
     with open(sp, "w") as fh:
         fh.write("\n".join(g.lines) + "\n")
@@ -811,6 +813,7 @@ def confirm_cases(res, drv, wd, stats):
         todo.append((g, ob, cid, L))
     if not todo:
         return
+    drv = vlib.build_driver("iodrv")
     sp = os.path.join(wd, "confirm.txt")
     with open(sp, "w") as fh:
         for _g, _ob, _cid, L in todo:
@@ -994,7 +997,7 @@ def run(res, tier, seed, replay_script=None):
         env = dict(os.environ, ASAN_OPTIONS="detect_leaks=0:abort_on_error=0:exitcode=1:symbolize=0", UBSAN_OPTIONS="print_stacktrace=0:symbolize=0")
         arcs, acases = run_driver_parallel(adrv, gens[:nas], awd, timeout={"quick": 900, "thorough": 3000}[tier], case_timeout=60, env=env)
         astats = dict(stats, observations=0, roundtrips=0, roundtrips_equal=0, continuations=0, continuations_equal=0, states={}, to_confirm=[],
-                      library_failures_outside_io={}, library_failure_examples={}, drv=adrv, wd=awd)
+                      library_failures_outside_io={}, library_failure_examples={}, drv=adrv, wd=awd, variant="asan")
         evaluate(res, gens[:nas], acases, None, astats, None)
         stats["violations"] = astats["violations"]
         vlib.log("[C06] sanitizer pass: %d cases in %.1fs" % (nas, time.time() - t0))
@@ -1014,11 +1017,26 @@ def run(res, tier, seed, replay_script=None):
     if not ok_ext and not res.violations:
         res.violation("extraction", "extraction of the model failed", {"kind": "proof-break", "log": elog[-2000:]}, no_input=True)
 
-    fam_count, nontrivial, excs = {}, 0, 0
+    fam_count, excs = {}, 0
+    CHANGING = ("load", "refsurp", "refsimple", "refaniso", "update", "merge", "clearref", "setcoef", "remtol", "remcount", "begin", "deliver", "deliverx",
+                "finish", "assign", "trans", "conformal", "cleartrans", "clearconformal", "clearlimits")
+    distinct = set()
+    import hashlib
     for g in gens:
         fam_count[g.spec["family"]] = fam_count.get(g.spec["family"], 0) + 1
-        if g.nchange >= 2:
-            nontrivial += 1
+        steps = cases.get(g.cid, [])
+        ok = sum(1 for t in steps if t.exc is None and t.cmd.split()[0] in CHANGING and len(t.cmd.split()) > 1 and t.cmd.split()[1] == "g")
+        hist, skip = [], False
+        for l in g.lines[1:]:
+            if l.startswith("# obs"):
+                skip = True
+            elif l.startswith("# endobs"):
+                skip = False
+            elif not skip:
+                hist.append(l)
+        if ok >= 2:      # measured: at least two state-changing calls after make returned without exception
+            distinct.add(hashlib.md5("\n".join(hist).encode()).hexdigest())
+    nontrivial = len(distinct)
     for steps in cases.values():
         excs += sum(1 for s in steps if s.exc is not None)
     if tier == "quick" and not os.environ.get("VERIF_KEEP"):
@@ -1030,7 +1048,7 @@ def run(res, tier, seed, replay_script=None):
                 "1-7 random calls among load, surplus/anisotropic refinement of every strategy, updateGrid, merge/clearRefinement, removePoints, "
                 "setHierarchicalCoefficients, copies (copyGrid, sub-range, assignment, copy ctor), beginConstruction + candidates + deliveries of candidates in "
                 "random order (far-end candidates first, so that samples are parked; single-point entry) + finish, transform/limit edits; an observation block after "
-                "~40% of the calls and at the end; non-trivial = at least 2 successful state-changing calls; distinct by case id (independent draws); "
+                "~40% of the calls and at the end; non-trivial = at least 2 state-changing calls after make that returned without exception (measured on the driver's output); distinct by the hash of the history text; "
                 "11 hand-made cases first (empty grid, emptied grid, every optional section per family, parked samples, zero outputs, custom rule)",
         "samples": [g.lines[:14] for g in gens[11:13]],
         "programs": len(gens), "observations": stats["observations"], "history_classes": stats["states"],
